@@ -27,6 +27,9 @@ def opsEV (c : Option EVCtx) (args : List String) : Option (Option EVCtx × Stri
   | ["log", dt], some c => do
       let k' := logStats c.P c.k (← parseRat? dt)
       some (some ⟨c.P, k'⟩, showStats k')
+  | ["reset"], some c =>
+      let k' := EV.reset c.k
+      some (some ⟨c.P, k'⟩, s!"{showPark k'} | {showStats k'}")
   | _, _ => none
 
 end Driver
